@@ -166,8 +166,9 @@ func runChild(sp spec) (*result, *journalRec, string, error) {
 	specPath := filepath.Join(dir, "spec.json")
 	os.WriteFile(specPath, b, 0o644)
 	cmd := exec.Command(exe(), "-test.timeout=0", "-test.count=1")
-	// atexit_sleep_ms=0: the race runtime otherwise sleeps 1 s at every exit of a child
-	cmd.Env = append(os.Environ(), "VERIF_C09_SPEC="+specPath, "GOMAXPROCS=2", "GOTRACEBACK=all", "GORACE="+strings.TrimSpace(os.Getenv("GORACE")+" atexit_sleep_ms=0"))
+	// atexit_sleep_ms=0: the race runtime otherwise sleeps 1 s at every exit of a child;
+	// exitcode=0: a data race reported in the child must not look like a process death
+	cmd.Env = append(os.Environ(), "VERIF_C09_SPEC="+specPath, "GOMAXPROCS=2", "GOTRACEBACK=all", "GORACE="+strings.TrimSpace(os.Getenv("GORACE")+" atexit_sleep_ms=0 exitcode=0"))
 	errf, _ := os.Create(filepath.Join(dir, "stderr"))
 	cmd.Stderr = errf
 	cmd.Stdout = errf
